@@ -18,6 +18,7 @@ def _names(tier):
 
     alphabet = ["a", '"', "\\", ".", "$", "{", "\n", "\r", "\t", " ", "'", "0", "é", "-", "_"]
     yield from strings(alphabet, 3 if tier == "quick" else 4)
+    yield from strings(["$", "{", "}", "a", "\\"], 5)
     yield from ("if", "then", "else", "assert", "with", "let", "in", "rec", "inherit", "or", "foo-bar", "${x}", "a.b")
 
 contract(
